@@ -1,10 +1,11 @@
 #!/bin/bash
 # Builds the framework from files on disk only (offline) and warms the Go build cache.
 set -e
-cd /verif
+ROOT=$(cd "$(dirname "$0")/.." && pwd)
+cd "$ROOT"
 export GOFLAGS=-mod=mod GOPROXY=off GOSUMDB=off GOTOOLCHAIN=local
 mkdir -p work evidence
-cp -n /repo/go.sum /verif/go.sum 2>/dev/null || true
+cp -n /repo/go.sum "$ROOT/go.sum" 2>/dev/null || true
 go1.26.8 build -o work/mkoverlay ./tools/mkoverlay
 for h in $(python3 -c "import json;print(' '.join(sorted(set(v['harness'] for v in json.load(open('checks.json')).values()))))"); do
   VERIF_BIN_SUFFIX=.setup tools/build.sh $h || exit 1
